@@ -917,4 +917,102 @@ fn u20_reindex_batch_copies_every_live_entry_and_advances() {
 	kani::cover!(live == 1 && a[3] != 0, "only the last");
 }
 
+
+// ================================================================== U22: growth bookkeeping (trigger_reindex, drop_index)
+pub(crate) static mut DROPFILE_N: usize = 0;
+pub(crate) static mut DROPFILE_ID: u16 = 0;
+pub(crate) fn stub_drop_file(t: IndexTable) -> Result<()> {
+	unsafe {
+		DROPFILE_N += 1;
+		DROPFILE_ID = t.id.as_u16();
+	}
+	std::mem::forget(t);
+	Ok(())
+}
+macro_rules! growth_harness {
+	($(#[$m:meta])* $name:ident, $body:expr) => {
+		#[kani::proof]
+		$(#[$m])*
+		#[kani::stub(crate::index::IndexTable::drop_file, stub_drop_file)]
+		#[kani::stub(std::hash::RandomState::new, crate::verif_stubs::random_state_new)]
+		#[kani::stub(parking_lot::RawRwLock::lock_shared_slow, crate::verif_stubs::lock_shared_slow)]
+		#[kani::stub(parking_lot::RawRwLock::unlock_shared_slow, crate::verif_stubs::unlock_shared_slow)]
+		#[kani::stub(parking_lot::RawRwLock::lock_exclusive_slow, crate::verif_stubs::lock_exclusive_slow)]
+		#[kani::stub(parking_lot::RawRwLock::unlock_exclusive_slow, crate::verif_stubs::unlock_exclusive_slow)]
+		#[kani::stub(parking_lot::RawRwLock::lock_upgradable_slow, crate::verif_stubs::lock_upgradable_slow)]
+		#[kani::stub(parking_lot::RawRwLock::unlock_upgradable_slow, crate::verif_stubs::unlock_upgradable_slow)]
+		#[kani::stub(parking_lot::RawRwLock::upgrade_slow, crate::verif_stubs::upgrade_slow)]
+		#[kani::stub(parking_lot::RawRwLock::downgrade_slow, crate::verif_stubs::downgrade_slow)]
+		#[kani::stub(parking_lot::RawRwLock::downgrade_to_upgradable_slow, crate::verif_stubs::downgrade_to_upgradable_slow)]
+		#[kani::stub(std::fmt::format, crate::verif_stubs::fmt_format)]
+		fn $name() {
+			$body
+		}
+	};
+}
+fn mk_growing_column(progress: u64) -> HashColumn {
+	// current index 18 bits; older indexes of 16 and 17 bits are still queued (two growths in flight)
+	let mut queue = VecDeque::new();
+	queue.push_back(ReindexEntry::Index(crate::index::verif_index::mk_table(0, 16)));
+	queue.push_back(ReindexEntry::Index(crate::index::verif_index::mk_table(0, 17)));
+	HashColumn {
+		col: 0,
+		tables: RwLock::new(Tables { index: crate::index::verif_index::mk_table(0, 18), value: Vec::new(), ref_count: None }),
+		reindex: RwLock::new(Reindex { queue, progress: AtomicU64::new(progress) }),
+		ref_count_cache: None,
+		path: std::path::PathBuf::new(),
+		preimage: false,
+		uniform_keys: false,
+		collect_stats: false,
+		ref_counted: false,
+		append_only: false,
+		salt: [0u8; 32],
+		stats: unsafe { std::mem::MaybeUninit::uninit().assume_init() },
+		compression: Compress::new(crate::compress::CompressionType::NoCompression, u32::MAX),
+		db_version: crate::options::CURRENT_VERSION,
+	}
+}
+fn front_bits(col: &HashColumn) -> Option<u8> {
+	match col.reindex.read().queue.front() {
+		Some(ReindexEntry::Index(t)) => Some(t.id.index_bits()),
+		_ => None,
+	}
+}
+growth_harness!(#[kani::unwind(8)] u22_drop_index_advances_to_next_queued_index, {
+	let p: u64 = kani::any();
+	let col = std::mem::ManuallyDrop::new(mk_growing_column(p));
+	unsafe {
+		DROPFILE_N = 0;
+	}
+	// dropping anything but the front of the queue is refused and changes nothing
+	assert!(ok(col.drop_index(IndexTableId::new(0, 17))).is_some(), "U22.drop_index.wrong_id_is_not_an_error");
+	assert!(unsafe { DROPFILE_N } == 0 && col.reindex.read().queue.len() == 2 && front_bits(&col) == Some(16), "U22.drop_index.only_the_front_index_can_be_dropped");
+	assert!(col.reindex.read().progress.load(Ordering::Relaxed) == p, "U22.drop_index.refused_drop_keeps_progress");
+	// dropping the fully migrated front index: its file goes, the next queued index becomes the source and is scanned
+	// from its first chunk
+	assert!(ok(col.drop_index(IndexTableId::new(0, 16))).is_some(), "U22.drop_index.no_error");
+	assert!(unsafe { DROPFILE_N } == 1 && unsafe { DROPFILE_ID } == IndexTableId::new(0, 16).as_u16(), "U22.drop_index.drops_the_file_of_the_front_index");
+	assert!(col.reindex.read().queue.len() == 1 && front_bits(&col) == Some(17), "U22.drop_index.next_queued_index_becomes_the_source");
+	assert!(col.reindex.read().progress.load(Ordering::Relaxed) == 0, "U22.drop_index.next_source_is_scanned_from_its_first_chunk");
+	assert!(col.tables.read().index.id.index_bits() == 18, "U22.drop_index.current_index_untouched");
+});
+growth_harness!(#[kani::unwind(8)] u22_trigger_reindex_queues_the_old_index, {
+	let p: u64 = kani::any();
+	let col = std::mem::ManuallyDrop::new(mk_growing_column(p));
+	{
+		let tl = col.tables.upgradable_read();
+		let rl = col.reindex.upgradable_read();
+		let (tl2, rl2) = HashColumn::trigger_reindex(tl, rl, col.path.as_path());
+		// a new, larger, empty current index; the previous one joins the *back* of the queue (older indexes are migrated first)
+		assert!(tl2.index.id.index_bits() == 19 && tl2.index.id.col() == 0, "U22.trigger_reindex.current_index_is_one_bit_larger");
+		assert!(rl2.queue.len() == 3, "U22.trigger_reindex.old_index_is_queued");
+		assert!(matches!(rl2.queue.back(), Some(ReindexEntry::Index(t)) if t.id.index_bits() == 18), "U22.trigger_reindex.old_index_goes_to_the_back");
+		assert!(matches!(rl2.queue.front(), Some(ReindexEntry::Index(t)) if t.id.index_bits() == 16), "U22.trigger_reindex.migration_source_unchanged");
+		// frame: the migration of the front index continues where it was
+		assert!(rl2.progress.load(Ordering::Relaxed) == p, "U22.trigger_reindex.progress_of_ongoing_migration_untouched");
+		std::mem::forget(tl2);
+		std::mem::forget(rl2);
+	}
+});
+
 /*@@GENERATED:column@@*/
